@@ -1,6 +1,7 @@
 import SSVerif.Model.TextFsg
 import SSVerif.Model.TextDict
 import SSVerif.Model.TextJson
+import SSVerif.Model.TextSvspec
 import Driver.Util
 /-! driver sub-command `c10`: runs the text-input models on the cases of `harness/h_c10.c`.
 Input lines: `- <fact> …` (facts printed by the harness: phone names, base dictionary, …) and
@@ -100,6 +101,30 @@ def caseCmn (s : Facts) (id : String) (b : List UInt8) : List String :=
   | none => [s!"{id} rc -1"]
   | some ms => [s!"{id} rc 0", s!"{id} means" ++ String.join (ms.map fun l => " " ++ showLit l)]
 
+def svErrName : SvErr → String
+  | .noInt => "noInt" | .badRange => "badRange" | .dup => "dup" | .badDelim => "badDelim"
+
+def svSetErrName : SvSetErr → String
+  | .multiStream => "multiStream" | .dimOutside => "dimOutside" | .tooMany => "tooMany"
+
+/-- `svspec`: `parse_subvecs`, then `feat_set_subvecs` on the default feature (1 stream, 39 dimensions:
+the harness prints what it used and the check compares), then `feat_subvec_project` on the frame whose
+component `d` is the number `d` — `svProject` is parametric in the frame, so this determines it -/
+def caseSvspec (id : String) (b : List UInt8) : List String :=
+  match parseSubvecs (cstr b) with
+  | .error e => [s!"{id} rej {svErrName e}"]
+  | .ok vs =>
+    let dump := s!"{id} ok" ++ String.join (vs.map fun v => " " ++ showNats v)
+    let nStream := 1
+    let dim := 39
+    match svSet nStream dim vs with
+    | .error e => [dump, s!"{id} set -1 {svSetErrName e}"]
+    | .ok (nsv, svdim) =>
+      let frame : Array Int := (Array.range dim).map fun (d : Nat) => (d : Int)
+      let proj : List Int :=
+        if h : ∀ v ∈ vs, ∀ d ∈ v, d < frame.size then svProject frame vs h else []
+      [dump, s!"{id} set 0 {nsv} {svdim}", s!"{id} idx" ++ String.join (proj.map fun x => s!" {x}")]
+
 def parseDef (t : String) : Option CfgDef :=
   match t.splitOn ":" with
   | [n, ty, d] =>
@@ -129,6 +154,7 @@ def step (s : Facts) (ws : List String) : Facts × List String :=
         | "align" => caseAlign s id b1
         | "addword" => caseAddWord s id b1 (b2.getD [])
         | "cmn" => caseCmn s id b1
+        | "svspec" => caseSvspec id b1
         | _ => [s!"{id} unmodelled"]
       (s, out)
   | _ => (s, [])
